@@ -281,8 +281,7 @@ def band_rules(run, db):
     for n in stores:
         v = pit.ev(n.targets[0].slice, fr)
         if not isinstance(v, Pred):
-            okp = False
-            break
+            raise AnalysisError('bandlimited_rms: the mask `%s` under which the PSD copy is zeroed is not followed as a predicate over r, flow, fhigh (%r)' % (ast.unparse(n.targets[0].slice), v))
         zeroed = v if zeroed is None else p_or(zeroed, v)
     verdict = {}
     if okp and zeroed is not None:
@@ -491,6 +490,10 @@ def edge_rules(run, db):
             if not (isinstance(p.value, Tup) and len(p.value.items) == 2):
                 raise AnalysisError('bandlimited_rms edges (%s): the (lower, upper) edge pair is not followed to the end of the edge block (%r)' % (label, p.value))
             lo, hi = [dom.rat(v) for v in p.value.items]
+            if lo is None or hi is None:
+                # the locals this rule reads at the end of the edge block do not hold numbers: the edges are kept somewhere else (a
+                # record, a helper's result) -- not followed, nothing is judged
+                raise AnalysisError('bandlimited_rms edges (%s): the resolved band edges are not held in the locals flow / fhigh when the PSD is first used (%r)' % (label, p.value))
             ok = lo is not None and hi is not None and lo == wlo and hi == whi
             run.check(ok, 'C13.band', f.qual, 'edges: ' + label, 'band given by %s resolves to [%s, %s]' % (label, wlo.key(), whi.key()),
                       'with %s the band becomes [%s, %s], expected [%s, %s] (max(r) is the largest radial frequency of the grid, 0 the smallest): bands specified this way are not the bands asked for, '
